@@ -31,7 +31,7 @@ pub fn prec(a: Expression) -> Expression {
 }
 
 pub const NAME_POOL: &[&str] = &["a", "b", "file1.txt", "FILE1.TXT", "*.txt", "f?le*", "[a-f]*", "data", "Data", "*", "x.y", "sub"];
-pub const FILE_POOL: &[&str] = &["out.txt", "a", "b", "c", "list.out", "dir/f", "./a", "A", "a/", " b"];
+pub const FILE_POOL: &[&str] = &["out.txt", "a", "b", "c", "list.out", "dir/f", "./a", "A", "a/", " b", "/dev/stdout", "-", "/dev/stderr", "stdout"];
 
 pub fn boundary_u64(r: &mut Rng) -> u64 {
     match r.below(10) {
